@@ -1,12 +1,22 @@
 #!/bin/bash
-# usage: try_seeded.sh <name> <prop> [<prop> ...]  -- apply a seeded patch to /repo, run quick checks, undo
+# usage: try_seeded.sh <name> <prop> [<prop> ...]
+# Runs the quick checks against a seeded change.  Default: the change is applied in a scratch worktree of /repo HEAD
+# (VERIF_REPO points the checks at it), so other checks can keep running on /repo.  With INPLACE=1 the patch is applied
+# to /repo itself (git -C /repo apply), the checks run, and it is undone straight afterwards.
 NAME=$1; shift
 cd /verif
-git -C /repo apply /verif/seeded/$NAME/patch.diff || { echo "patch does not apply"; exit 2; }
+if [ -n "$INPLACE" ]; then
+  git -C /repo apply /verif/seeded/$NAME/patch.diff || { echo "patch does not apply"; exit 2; }
+  R=/repo
+else
+  R=/tmp/seedwt_$NAME
+  git -C /repo worktree remove --force $R 2>/dev/null
+  git -C /repo worktree add -q --detach $R HEAD || exit 2
+  git -C $R apply /verif/seeded/$NAME/patch.diff || { echo "patch does not apply"; git -C /repo worktree remove --force $R; exit 2; }
+fi
 for P in "$@"; do
-  python3-vt check.py $P --tier ${TIER:-quick} > /tmp/try_${NAME}_$P.log 2>&1
+  VERIF_REPO=$R VERIF_EVIDENCE_DIR=/verif/.scratch/ev_seeded python3-vt check.py $P --tier ${TIER:-quick} > /tmp/try_${NAME}_$P.log 2>&1
   echo "$NAME $P exit=$? :: $(grep -c '^VIOLATION' /tmp/try_${NAME}_$P.log) violation lines; $(tail -1 /tmp/try_${NAME}_$P.log | cut -c1-200)"
   grep -A1 '^VIOLATION' /tmp/try_${NAME}_$P.log | head -4 | cut -c1-300
 done
-git -C /repo checkout -- .
-git -C /repo status --short | head -3
+if [ -n "$INPLACE" ]; then git -C /repo checkout -- .; git -C /repo status --short | head -3; else git -C /repo worktree remove --force $R; fi
